@@ -101,6 +101,39 @@ def as_numpy_items(model, t, chunk):
     return None
 
 
+def reusing(chunk, after):
+    """A producer that keeps one object per kind of item, refills it in place for each item and hands the same object
+    over again (one acquisition buffer, one record instance updated per sample) — and scribbles over it once the
+    consumer has come back for the next item. What the consumer was handed is the content at hand-over."""
+    import copy
+    import enum
+    import numpy as np
+    buf = None
+    for x in chunk:
+        same = buf is not None and type(buf) is type(x)
+        if same and isinstance(x, np.ndarray) and x.ndim >= 1 and x.shape == buf.shape and x.dtype == buf.dtype and x.dtype != object:
+            buf[...] = x
+        elif same and isinstance(x, list):
+            buf[:] = x
+        elif same and isinstance(x, dict):
+            buf.clear()
+            buf.update(x)
+        elif same and hasattr(x, "__dict__") and not isinstance(x, (enum.Enum, type)):
+            buf.__dict__.clear()
+            buf.__dict__.update(x.__dict__)
+        elif isinstance(x, (np.ndarray, list, dict)) or (hasattr(x, "__dict__") and not isinstance(x, (enum.Enum, type))):
+            buf = copy.copy(x)
+        else:
+            buf = None
+            yield x
+            continue
+        after[0] += 1
+        yield buf
+
+
+REUSED = [0]
+
+
 def py_write_history(model, proto, pyvals, rng, fmt):
     """Write pyvals with a seeded grouping. Returns (bytes|text, error, description)."""
     sink = P.SimSink() if fmt == "binary" else io.StringIO()
@@ -126,12 +159,12 @@ def py_write_history(model, proto, pyvals, rng, fmt):
                 chunk = items[k:k + g]
                 k += g
                 # the API takes any Iterable[T]: sized ones (list, tuple, deque, dict views) and one-shot ones (generator, iterator, map)
-                how = rng.choice(["list", "gen", "tuple", "list", "gen", "tuple", "deque", "dictvalues", "iter", "map", "nparray", "nparray"])
+                how = rng.choice(["list", "gen", "tuple", "list", "gen", "tuple", "deque", "dictvalues", "iter", "map", "nparray", "nparray", "reuse", "reuse"])
                 # (binary only: that numpy records and scalars can stand in for the Python objects is a feature of the binary serializers)
                 arr = as_numpy_items(model, t, chunk) if (how == "nparray" and fmt == "binary") else None
                 if how == "nparray" and arr is None:
                     how = "list"
-                desc.append("%s:%s%d" % (name, how[:2] if how in ("deque", "dictvalues", "iter", "map", "nparray") else how[0], g))
+                desc.append("%s:%s%d" % (name, how[:2] if how in ("deque", "dictvalues", "iter", "map", "nparray", "reuse") else how[0], g))
                 if how == "list":
                     meths[i](list(chunk))
                 elif how == "gen":
@@ -147,6 +180,8 @@ def py_write_history(model, proto, pyvals, rng, fmt):
                     meths[i](map(lambda x: x, chunk))
                 elif how == "nparray":
                     meths[i](arr)
+                elif how == "reuse":
+                    meths[i](reusing(chunk, REUSED))
                 else:
                     meths[i](tuple(chunk))
         w.close()
@@ -203,11 +238,13 @@ def py_side(model, proto, rng, quick, stats, viols, ctx):
             fmt = "ndjson" if (nd_base is not None and hr.chance(0.4)) else "binary"
             stats["runs"] += 1
             stats["py_write_histories"] = stats.get("py_write_histories", 0) + 1
+            before = REUSED[0]
             out, err, desc = py_write_history(model, proto, pyvals, hr, fmt)
+            stats["items_handed_over_in_a_reused_object"] = stats.get("items_handed_over_in_a_reused_object", 0) + REUSED[0] - before
             for tok in desc.split():
                 kind = tok.split(":")[1].rstrip("0123456789")
                 key = {"l": "list_path", "g": "generator_path", "t": "tuple_path", "de": "sized_iterable_path(deque, dict view)", "di": "sized_iterable_path(deque, dict view)",
-                       "it": "one_shot_iterator_path(iter, map)", "ma": "one_shot_iterator_path(iter, map)", "np": "numpy_array_as_iterable"}[kind]
+                       "it": "one_shot_iterator_path(iter, map)", "ma": "one_shot_iterator_path(iter, map)", "np": "numpy_array_as_iterable", "re": "producer_reusing_one_object"}[kind]
                 stats[key] = stats.get(key, 0) + 1
                 if tok.endswith("0"):
                     stats["empty_write_call"] = stats.get("empty_write_call", 0) + 1
@@ -560,7 +597,7 @@ def main():
                stubbed="C++: nd-array header (cpp.overrideArrayHeader) and date/date.h are verification stubs; harness main emitted from the generated protocols.h",
                assumptions=["reference codec per docs/reference, with int8/uint8 as one raw byte"],
                replay_fn=replay_doc, quick_budget=150,
-               fault_keys=("value_straddles_refill", "empty_write_call", "generator_path", "list_path", "tuple_path", "sized_iterable_path(deque, dict view)", "one_shot_iterator_path(iter, map)", "numpy_array_as_iterable", "block_end_on_buffer_boundary", "cpp_relay", "cpp_script", "cpp_ndjson_relay", "cpp_ndjson_script", "cpp_cppnd_relay", "cpp_cppnd_script", "py_write_histories"))
+               fault_keys=("value_straddles_refill", "empty_write_call", "generator_path", "list_path", "tuple_path", "sized_iterable_path(deque, dict view)", "one_shot_iterator_path(iter, map)", "numpy_array_as_iterable", "producer_reusing_one_object", "items_handed_over_in_a_reused_object", "block_end_on_buffer_boundary", "cpp_relay", "cpp_script", "cpp_ndjson_relay", "cpp_ndjson_script", "cpp_cppnd_relay", "cpp_cppnd_script", "py_write_histories"))
 
 
 if __name__ == "__main__":
